@@ -116,6 +116,12 @@ PROPS = {
                    n=dict(quick=100, thorough=600), shard=20, search_rounds=1, timeout=dict(quick=240, thorough=1500),
                    opts=dict(procs="16+2"), opts_thorough=dict(procs="1+2+4+16"),
                    evals=dict(M="share_mismatches", V="c12_share_violations", NT="c12_share_nontrivial"), counts=("NT",)),
+              # a crowd: a hundred machines inside slow interpreted actions of one specification at once (no race detector:
+              # the point is how many executions overlap in time)
+              dict(component="specshare", require="Corr.SpecCorr", require_vo="Corr/SpecCorr.vo",
+                   n=dict(quick=4, thorough=12), shard=20, search_rounds=1, timeout=dict(quick=240, thorough=1500),
+                   opts=dict(procs="16", crowd="1"),
+                   evals=dict(M="share_mismatches", V="c12_share_violations")),
               dict(component="specswap", require="Corr.SpecCorr", require_vo="Corr/SpecCorr.vo", race=True, runner=race_runner,
                    n=dict(quick=80, thorough=500), shard=20, search_rounds=1, timeout=dict(quick=240, thorough=1500),
                    opts=dict(procs="16+2"), opts_thorough=dict(procs="1+2+4+16"),
